@@ -1,2 +1,34 @@
-(* placeholder; theorems are added below *)
-From Hexital Require Import Base.Prelude.
+(* C19 - Reading state and converting input have no hidden side effects.
+   In the functional model the read accessors (Model/Access.v, Model/Readings.v) are
+   functions from a state to a value: they cannot change the state, there is nothing to
+   prove about them, and the assurance that the *code's* accessors are equally pure comes
+   from the falsifier (deep state snapshots around every accessor) - that part is partial.
+   What is proved: calculating never alters a candle's timestamp, OHLCV, clean values or
+   tag, nor any entry it does not own; and the equivalent encodings of a candle decode to
+   the same candle. *)
+From Coq Require Import ZArith List String Bool.
+From Hexital Require Import Base.Prelude Base.Num Model.Manager Model.Candle Model.Readings Model.Engine
+  Model.Hexital Proofs.FrameProofs Proofs.HexitalProofs.
+Import ListNotations.
+
+Theorem C19_calculating_never_alters_candle_data :
+  forall (O : NumOps) (k : kind O) (name : string) (rnd : Z) (st st' : store O),
+  calculate O (top O k name rnd) st = Ok st' ->
+  Forall2 (fun c c' => t c' = t c /\ cur O (p c') = cur O (p c) /\ clean O (p c') = clean O (p c) /\
+                       tagged O (p c') = tagged O (p c)) st st'.
+Proof.
+  intros O k name rnd st st' H. apply calculate_frame in H.
+  induction H as [|c c' l l' Hc H IH]; constructor; [|exact IH].
+  destruct Hc as (A & B & C & D & _). tauto.
+Qed.
+Print Assumptions C19_calculating_never_alters_candle_data.
+
+Theorem C19_encodings_decode_to_the_same_candle :
+  forall (O : NumOps) (o h l c v : num O) (ts : Z),
+  let cnd := {| t := ts; p := raw_payload O (Build_ohlcv O o h l c v) |} in
+  decode O (RC_candle O cnd) = Ok cnd /\
+  decode O (RC_dict O o h l c v ts) = Ok cnd /\
+  decode O (RC_list O [IT_num O o; IT_num O h; IT_num O l; IT_num O c; IT_num O v; IT_ts O ts]) = Ok cnd /\
+  decode O (RC_list O [IT_ts O ts; IT_num O o; IT_num O h; IT_num O l; IT_num O c; IT_num O v]) = Ok cnd.
+Proof. exact decode_encodings. Qed.
+Print Assumptions C19_encodings_decode_to_the_same_candle.
